@@ -311,6 +311,7 @@ func (f *frame) contractCall(callee *ssa.Function, spec *FuncSpec, args []Val, i
 	} else {
 		vc.note("contract of %s has no assigns clause: caller %s havocs all heaps", name, FuncName(f.fn))
 		f.havocAllPreservingLocals(st, in, "call "+name)
+		f.assumePreserved(spec, env, pre, st)
 	}
 	var rtype types.Type = callee.Signature.Results()
 	if callee.Signature.Results().Len() == 1 {
@@ -680,5 +681,22 @@ func (f *frame) execRunDefers(in string, st *State) {
 				}
 			}
 		}
+	}
+}
+
+// assumePreserved: the callee's contract lists locations it never modifies
+// (preserves): after the havoc those cells, if they existed before the call,
+// hold their old values.
+func (f *frame) assumePreserved(spec *FuncSpec, env *Env, pre, st *State) {
+	if len(spec.Preserves) == 0 {
+		return
+	}
+	vc := f.vc
+	for _, p := range vc.assignPats(env, spec.Preserves) {
+		hn, ho := vc.heapOf(st, p.sort), vc.heapOf(pre, p.sort)
+		if hn == ho {
+			continue
+		}
+		vc.assert(fmt.Sprintf("(forall ((l! Loc)) (! (=> (and %s (<= (rt l!) %s)) (= (select %s l!) (select %s l!))) :pattern ((select %s l!))))", p.matchCond("l!"), pre.Top, hn, ho, hn))
 	}
 }
